@@ -373,6 +373,7 @@ ResendIn(s, r, m) ==
     IN IF ~IsLoggedOn(h.nx) THEN h
        ELSE IF r1.rrCur # 0 /\ r1.rrCur < s1.nIn
             THEN LET q == SendRR(s1, s1.nIn, r1.rrEnd) IN Ret(q.s, [q.v EXCEPT !.stash = r1.stash, !.alloc = r1.alloc])
+       ELSE IF m.gf = "bad" THEN Ret(s1, Latent)      \* resendState.FixMsgIn re-reads GapFillFlag: unreadable -> handleStateError
        ELSE IF m.gf = "Y" /\ r1.rrCur # 0 /\ r1.rrCur = s1.nIn
             THEN LET q == SendRR(s1, s1.nIn, r1.rrEnd) IN Ret(q.s, [q.v EXCEPT !.stash = r1.stash, !.alloc = r1.alloc])
        ELSE IF r1.rrEnd >= s1.nIn THEN Ret(s1, r1)
